@@ -420,6 +420,16 @@ func genTail(r *rand.Rand) cpuCase {
 	g.prologue(2)
 	g.body(r.Intn(6), r.Intn(2) == 0)
 	t := 1 + r.Intn(3)
+	if r.Intn(4) == 0 {
+		// a store that misses, a store that hits a cached line (it produces no write-back entry), then one last
+		// register result, then the end: the result sits behind a busy write unit when the pipeline looks empty
+		b := g.breg()
+		g.emit("lw %s, %d(%s)", g.reg(), 192+r.Intn(16)*4, b) // cache the line of the second store
+		g.body(r.Intn(2), false)
+		g.emit("sw %s, %d(%s)", g.srcReg(), 1024+r.Intn(64)*4, b)
+		g.emit("sw %s, %d(%s)", g.srcReg(), 192+r.Intn(16)*4, b)
+		t = 1
+	}
 	for i := 0; i < t; i++ {
 		switch r.Intn(4) {
 		case 0:
@@ -520,6 +530,9 @@ func genErr(r *rand.Rand) cpuCase {
 // walks over more distinct lines than any first-level cache holds (stride 64 or 128, 20-70 lines), then
 // the dirty line is read again: a dirty victim must have been written back (C05).
 func genEvict(r *rand.Rand) cpuCase {
+	if r.Intn(4) == 0 {
+		return genEvictPartial(r)
+	}
 	ms := 16384
 	g := newGen(r, 3+r.Intn(3), ms)
 	g.base = []int{9, 20}
@@ -823,8 +836,72 @@ func genPingpong(r *rand.Rand) cpuCase {
 	return cpuCase{family: "pingpong", text: g.text(), regs: initRegs(r, g), memSize: ms, mem: make([]int8, ms)}
 }
 
+// the memory size is NOT a multiple of the line size: the last, partial line is loaded, stored to (hits), evicted
+// by a walk over more lines than the first-level cache holds, and read again.
+func genEvictPartial(r *rand.Rand) cpuCase {
+	rem := 4 * (1 + r.Intn(15))
+	nl := 17 + r.Intn(24)
+	ms := 64*nl + rem
+	g := newGen(r, 3+r.Intn(3), ms)
+	g.base = []int{9, 20}
+	g.emit("li s1, %d", 64*nl)
+	g.emit("li s4, 0")
+	off := 4 * r.Intn(rem/4)
+	g.emit("lw %s, %d(s1)", g.reg(), off)
+	for i := 0; i < 1+r.Intn(2); i++ {
+		g.emit("%s %s, %d(s1)", []string{"sw", "sb"}[r.Intn(2)], g.srcReg(), 4*r.Intn(rem/4))
+	}
+	g.emit("li s10, %d", 17+r.Intn(nl-16)) // 17..nl lines from address 0: more than the 16 lines of a first-level cache
+	l := g.label()
+	g.place(l)
+	g.emit("%s %s, %d(s4)", []string{"lw", "lb", "lh"}[r.Intn(3)], g.reg(), r.Intn(8)*4)
+	g.emit("addi s4, s4, 64")
+	g.emit("addi s10, s10, -1")
+	g.emit("bnez s10, %s", l)
+	g.emit("lw %s, %d(s1)", g.reg(), off)
+	if r.Intn(2) == 0 {
+		g.emit("ret")
+	}
+	return cpuCase{family: "evict", text: g.text(), regs: initRegs(r, g), memSize: ms, mem: randMem(r, ms)}
+}
+
+// G-resume: a conditional branch to an out-of-line block that jumps BACK to the instruction after the branch
+// (`beqz c, slow ; resume: … ; ret ; slow: … ; j resume`), taken or not by data; register-only.
+func genResume(r *rand.Rand) cpuCase {
+	ms := 64
+	g := newGen(r, 4+r.Intn(3), ms)
+	n := 1 + r.Intn(3)
+	type blk struct{ slow, resume string }
+	var blks []blk
+	g.body(r.Intn(3), false)
+	for i := 0; i < n; i++ {
+		b := blk{g.label(), g.label()}
+		blks = append(blks, b)
+		c := g.reg()
+		switch r.Intn(3) {
+		case 0:
+			g.emit("beqz %s, %s", c, b.slow)
+		case 1:
+			g.emit("bnez %s, %s", c, b.slow)
+		default:
+			g.emit("%s %s, %s, %s", []string{"beq", "bne", "blt", "bge", "bltu", "bgeu"}[r.Intn(6)], c, g.reg(), b.slow)
+		}
+		g.place(b.resume)
+		g.body(1+r.Intn(3), false)
+	}
+	g.emit("ret")
+	for _, b := range blks {
+		g.place(b.slow)
+		g.body(1+r.Intn(2), false)
+		g.emit("j %s", b.resume)
+	}
+	return cpuCase{family: "resume", text: g.text(), regs: initRegs(r, g), memSize: ms, mem: make([]int8, ms)}
+}
+
 func genCase(r *rand.Rand, family string) cpuCase {
 	switch family {
+	case "resume":
+		return genResume(r)
 	case "pingpong":
 		return genPingpong(r)
 	case "stream":
